@@ -18,4 +18,9 @@ theorem find?_name (L : Levels) (k : Bytes) (l : Level) (h : find? L k = some l)
   simpa using this
 
 
+/-- the prompt matcher `determineCurrentPriv` applies to one level -/
+def matchOf (notContains : Level → List Bytes) (patMatch : Level → Bytes → Bool) : Level → Bytes → Bool :=
+  fun l p => !(notContains l).any (fun s => isInfix s p) && patMatch l p
+
+
 end Scrapli.Priv
